@@ -17,6 +17,10 @@ ARG_KINDS = {
     "do": "(do (t :{k}1 nil) (t :{k}2 {v}))",
     "try": "(try (t :{k}b {v}) (finally (t :{k}f nil)))",
     "loop": "(loop* [i 0] (if (< i 1) (recur (t :{k}r (inc i))) (t :{k}e {v})))",
+    # host interop on an effectful target: property read, method call (the target must be evaluated once)
+    "attr": "(.-real (t :{k} 7))",
+    "method": "(.bit_length (t :{k} 7))",
+    "dot-attr": "(. (t :{k} 7) -imag)",
 }
 ENCLOSING = {
     "call": "((fn* [a b c] [a b c]) {0} {1} {2})",
@@ -28,6 +32,9 @@ ENCLOSING = {
     "recur": "(loop* [a nil b nil n 0] (if (< n 1) (recur {0} {1} (inc n)) [a b]))",
     "fn-recur": "((fn* [a b n] (if (< n 1) (recur {0} {1} (inc n)) [a b])) nil nil 0)",
     "fn-recur-under-let": "((fn* [a b n] (let* [m n] (if (< m 1) (recur {0} {1} (inc n)) [a b]))) nil nil 0)",
+    "if-test": "(if {0} (t :then 1) (t :else 2))",
+    "when-test": "(when {0} (t :body 1))",
+    "and-or": "(or (and {0} {1}) (t :alt 3))",
     "interop-call": "(.get {{:q 5}} {0} {1})",
     "let-inits": "(let* [a {0} b {1} c {2}] [a b c])",
     "loop-inits": "(loop* [a {0} b {1}] [a b])",
@@ -55,7 +62,7 @@ def bodies():
     out = []
     params = ["p0", "p1", "p2"]
     for enc, tmpl in ENCLOSING.items():
-        nhole = 3 if "{2}" in tmpl else 2
+        nhole = 3 if "{2}" in tmpl else (2 if "{1}" in tmpl else 1)
         for pos in range(nhole):
             for kind, ktmpl in ARG_KINDS.items():
                 if kind == "marker":
@@ -90,14 +97,14 @@ def run(rep, tier, seed):
     if quick:
         keep = [b for b in bs if b[0].startswith("extra") or b[0].endswith("all-markers")]
         rest = [b for b in bs if b not in keep]
-        # stratified: every enclosing form appears with 3 seeded (position, compound kind) combinations
+        # stratified: every enclosing form appears with 4 seeded (position, compound kind) combinations
         by_enc = {}
         for b in rest:
             by_enc.setdefault(b[0].split("/")[0], []).append(b)
         picked = []
         for enc in sorted(by_enc):
             rnd.shuffle(by_enc[enc])
-            picked += by_enc[enc][:3]
+            picked += by_enc[enc][:4]
         bs = keep + picked
     specs = []
     for name, body in bs:
